@@ -155,6 +155,65 @@ func TestC02(t *testing.T) {
 			cases = append(cases, run.Case{ID: v.Name + "/" + m.String(), Run: func(t *testing.T) run.Outcome { return c02Run(t, p, v, m, env.Seed+1) }})
 		}
 	}
-	run.Main(t, "C02", cases, map[string]any{"N_per_direction": n, "max_faults": k, "fault_kinds": fmt.Sprint(AllFaultActions),
+	// Acknowledgement loss on top of fragment loss (DTLS 1.3 with fragmented flights only: partial ACKs and
+	// selective retransmission): one of the first 18 datagrams of one side is lost AND the first 1..3
+	// datagrams the other side emits after its own first flight (in such a run: its ACKs) are lost as well.
+	// The length of each side's first flight is measured on the variant's fault-free run.
+	for _, v := range VariantsCombined() {
+		if !v.V13 || v.S.MTU == 0 {
+			continue
+		}
+		first := map[bool]int{}
+		world.Run(t, env.Seed+1, func(w *world.World) {
+			pr, err := v.Setup(w, p)
+			if err != nil {
+				return
+			}
+			n := world.NewNet(w, world.ClientAddr, nil)
+			_ = n.Pump(20*time.Second, pr.BothDone)
+			n.Flush()
+			// a side's first flight = its datagrams emitted before the other side's second burst
+			var order []bool
+			for _, d := range w.Emitted() {
+				if d.ID >= pr.FirstID {
+					order = append(order, d.Src == world.ClientAddr)
+				}
+			}
+			for _, side := range []bool{true, false} {
+				seenSelf, cnt := false, 0
+				for _, c := range order {
+					if c == side {
+						seenSelf = true
+						cnt++
+					} else if seenSelf {
+						break
+					}
+				}
+				first[side] = cnt
+			}
+			pr.CloseAll()
+		})
+		seen := map[string]bool{}
+		for _, m := range masks {
+			seen[m.String()] = true
+		}
+		for _, fromClient := range []bool{false, true} {
+			for idx := 0; idx < 18; idx++ {
+				for j := 1; j <= 3; j++ {
+					m := world.Mask{{FromClient: fromClient, Idx: idx, Act: world.ActDrop}}
+					for a := 0; a < j; a++ {
+						m = append(m, world.Fault{FromClient: !fromClient, Idx: first[!fromClient] + a, Act: world.ActDrop})
+					}
+					if seen[m.String()] {
+						continue
+					}
+					seen[m.String()] = true
+					v, m := v, m
+					cases = append(cases, run.Case{ID: v.Name + "/" + m.String(), Run: func(t *testing.T) run.Outcome { return c02Run(t, p, v, m, env.Seed+1) }})
+				}
+			}
+		}
+	}
+	run.Main(t, "C02", cases, map[string]any{"ack_loss_family": "13-mtu200: one of the first 18 datagrams of a side dropped x the first j<=3 datagrams the other side emits after its own first flight dropped", "N_per_direction": n, "max_faults": k, "fault_kinds": fmt.Sprint(AllFaultActions),
 		"variants": len(AllVariants()) + len(VariantsCombined()), "masks": len(masks), "thorough_extra": "all 2^12 drop-only masks over N=6"})
 }
